@@ -31,7 +31,7 @@ F = ['sdc11073.mdib.providermdib.ProviderMdib._transaction_manager',
      'sdc11073.mdib.mdibbase.MultiStatesLookup.set_version', 'sdc11073.mdib.mdibbase.MdibBase.rm_descriptors_and_states',
      'sdc11073.mdib.mdibbase.EntityGetter._mk_entity', 'sdc11073.mdib.providermdib.ProviderEntityGetter.new_entity']
 SK = ['metric', 'alert', 'component', 'context_get', 'context_new', 'metric_entity', 'context_entity']
-OPS = ['none', 'update_descr', 'update_state', 'update_parent', 'create_child', 'remove_sibling', 'remove_self']
+OPS = ['none', 'update_descr', 'update_state', 'update_parent', 'create_child', 'remove_sibling', 'remove_self', 'remove_parent']
 IF = ['classic', 'entity']
 
 
@@ -42,9 +42,10 @@ def obligations(tier):
         obs.append(Ob(f'C02.state.{name}', 'harness.C02', 'state_tx', bind={'kind': kind}, timeout=t, functions=F, stubs=STUBS,
                       bounds='symbolic dv, sv, mv in N, str <= 2; empty / committed / aborted transaction (selector)',
                       claim='MdibVersion +1 iff committed; StateVersion +1; everything else untouched; integrity invariants hold'))
-    pairs = [(i, a, b) for i in range(2) for a in range(7) for b in range(7) if (a, b) != (0, 0)]
+    pairs = [(i, a, b) for i in range(2) for a in range(8) for b in range(8) if (a, b) != (0, 0)]
     if tier == 'quick':
-        keep = {(1, 2), (3, 1), (1, 3), (4, 3), (3, 4), (5, 3), (3, 5), (6, 2), (4, 5), (0, 4), (6, 0), (1, 6)}
+        keep = {(1, 2), (3, 1), (1, 3), (4, 3), (3, 4), (5, 3), (3, 5), (6, 2), (4, 5), (0, 4), (6, 0), (1, 6), (5, 7), (7, 5),
+                (0, 7), (4, 7)}
         pairs = [(i, a, b) for (i, a, b) in pairs if (a, b) in keep]
     for i, a, b in pairs:
         obs.append(Ob(f'C02.descr.{IF[i]}.{OPS[a]}.{OPS[b]}', 'harness.C02', 'descr_tx', bind={'iface': i, 'op1': a, 'op2': b},
@@ -52,6 +53,10 @@ def obligations(tier):
                       bounds='symbolic dv, sv, mv, parent dv in N; two operations in this order in one descriptor transaction',
                       claim='rejected => no effect; committed => MdibVersion +1, counters monotone, changed content => greater counter, '
                             'parent bumped on child add/remove, state DescriptorVersion == descriptor\'s, unnamed objects untouched'))
+    for kd, nm in enumerate(['descriptor_tx_single_state', 'metric_state_tx', 'context_tx', 'descriptor_tx_multi_state']):
+        obs.append(Ob(f'C02.stale_entity.{nm}', 'harness.C02', 'stale_entity_write', bind={'kind': kd}, timeout=t, functions=F,
+                      stubs=STUBS, bounds='entity copy with symbolic own counters ev <= dv, esv <= sv (any staleness); dv, sv, mv in N',
+                      claim='writing back an outdated entity copy still publishes counters greater than the MDIB held before'))
     for i in range(2):
         for ctx in (False, True):
             obs.append(Ob(f'C02.recreate.{IF[i]}.{"context" if ctx else "descriptor"}', 'harness.C02', 'recreate',
@@ -69,7 +74,7 @@ MANIFEST_ENTRY = {
     'technique': 'bounded symbolic execution (CrossHair/z3) of the real transaction code with symbolic version counters; '
                  'before/after version-map and content-snapshot oracle, case split per operation pair and interface',
     'text': 'Every path of each transaction shape is explored for ALL natural version counters ("Confirmed over all paths"); thorough '
-            'covers all 96 ordered operation pairs x 2 interfaces, quick a fixed subset of 24.',
+            'covers all 63 ordered operation pairs x 2 interfaces, quick a fixed subset of 32.',
     'note': 'Single-writer; MDIB content besides the counters is the concrete 13-descriptor kit; <= 2 operations per descriptor '
             'transaction; report XML not involved.',
 }
